@@ -455,10 +455,25 @@ func (c *Ctx) fontBBoxRulesSSA() {
 					}
 					cell := fmt.Sprintf("accumulator empty: %v, empty glyph box: %v", accEmpty, zero)
 					ev := &ssaEval{c: c, bind: map[ssa.Value]sv{}, mem: map[string]sv{}}
-					ev.noInline = func(f *ssa.Function) bool { return true }
+					// helpers of the module (the method of an accumulator type, say) are evaluated in place
+					ev.noInline = func(f *ssa.Function) bool { return !c.inModule(f) }
+					// a boolean cell of a local variable is a flag like a boolean loop variable: it has a
+					// constant value on entry (the zero value if nothing was stored) and stands in the
+					// loop for "no box yet" or its negation, whichever the entry value says
+					inLoop := false
+					flagEntry := map[string]bool{}
+					flagSeen := map[string]bool{}
+					flagVal := func(entry bool) bool { return entry == accEmpty }
 					ev.load = func(ld *ssa.UnOp, addr sv) (sv, bool) {
 						if v, ok := ev.mem[addr.s]; ok {
 							return v, true
+						}
+						if bt, ok := ld.Type().Underlying().(*types.Basic); ok && bt.Info()&types.IsBoolean != 0 && addr.k == svAddr && strings.HasPrefix(addr.s, "cell") {
+							if !inLoop {
+								return boolV(false), true
+							}
+							flagSeen[addr.s] = true
+							return boolV(flagVal(flagEntry[addr.s])), true
 						}
 						return symV("v:" + addr.s), true
 					}
@@ -522,8 +537,19 @@ func (c *Ctx) fontBBoxRulesSSA() {
 					for _, r := range returns(fn) {
 						if len(r.Results) == 1 {
 							if ld, ok := r.Results[0].(*ssa.UnOp); ok && ld.Op == token.MUL {
-								if v := ev.val(fr, ld.X); v.k == svAddr {
-									retCell = v.s
+								// the variable that is returned, or a field of it (an accumulator struct)
+								suffix := ""
+								x := ld.X
+								for {
+									fa, isField := x.(*ssa.FieldAddr)
+									if !isField || ev.val(fr, x).k == svAddr {
+										break
+									}
+									suffix = "." + fa.X.Type().Underlying().(*types.Pointer).Elem().Underlying().(*types.Struct).Field(fa.Field).Name() + suffix
+									x = fa.X
+								}
+								if v := ev.val(fr, x); v.k == svAddr {
+									retCell = v.s + suffix
 								}
 							}
 						}
@@ -533,18 +559,30 @@ func (c *Ctx) fontBBoxRulesSSA() {
 						continue
 					}
 					var flag *ssa.Phi
+					phiEntry := true
+					for k, v := range ev.mem {
+						if v.k == svBool && strings.HasPrefix(k, "cell") {
+							flagEntry[k] = v.b
+							delete(ev.mem, k)
+						}
+					}
+					inLoop = true
 					for _, ins := range H.Instrs {
 						if phi, ok := ins.(*ssa.Phi); ok {
 							if bt, ok := phi.Type().Underlying().(*types.Basic); ok && bt.Info()&types.IsBoolean != 0 {
 								// "no box yet": true on entry, and (below) afterwards exactly when the accumulator is still empty
+								entry := true
 								for i, p := range H.Preds {
 									if !H.Dominates(p) {
-										if v := ev.val(fr, phi.Edges[i]); v.k != svBool || !v.b {
-											problems = append(problems, "the flag of the loop is not true on entry")
+										if v := ev.val(fr, phi.Edges[i]); v.k != svBool {
+											problems = append(problems, "the flag of the loop has no constant value on entry")
+										} else {
+											entry = v.b
 										}
 									}
 								}
-								fr.vals[phi] = boolV(accEmpty)
+								phiEntry = entry
+								fr.vals[phi] = boolV(flagVal(entry))
 								flag = phi
 							} else {
 								fr.vals[phi] = symV("v:" + phi.Name())
@@ -598,13 +636,24 @@ func (c *Ctx) fontBBoxRulesSSA() {
 					if got := ev.mem[retCell].String(); got != want {
 						problems = append(problems, fmt.Sprintf("%s: the accumulator becomes %s, expected %s", cell, got, want))
 					}
+					// afterwards every flag says again whether the accumulator is (still) empty
+					wantFlag := func(entry bool) bool { return entry == (accEmpty && zero) }
 					if flag != nil {
 						for i, p := range H.Preds {
 							if p == from {
-								if v := ev.val(fr, flag.Edges[i]); v.k != svBool || v.b != (accEmpty && zero) {
+								if v := ev.val(fr, flag.Edges[i]); v.k != svBool || v.b != wantFlag(phiEntry) {
 									problems = append(problems, fmt.Sprintf("%s: the flag becomes %s, but the accumulator is empty afterwards: %v", cell, v.String(), accEmpty && zero))
 								}
 							}
+						}
+					}
+					for k := range flagSeen {
+						v, written := ev.mem[k]
+						if !written {
+							v = boolV(flagVal(flagEntry[k]))
+						}
+						if v.k != svBool || v.b != wantFlag(flagEntry[k]) {
+							problems = append(problems, fmt.Sprintf("%s: the flag %s becomes %s, but the accumulator is empty afterwards: %v", cell, k, v.String(), accEmpty && zero))
 						}
 					}
 				}
@@ -765,6 +814,15 @@ func (c *Ctx) widthRulesSSA() {
 			}
 			if strings.HasSuffix(a, ".Glyphs") {
 				return symV("glyphs"), true
+			}
+			// an element or a field of a value that was copied as a whole into a local variable
+			// (`m := f.FontMatrix; m[0]`) is that element of the value
+			for i := len(a) - 1; i > 0; i-- {
+				if a[i] == '[' || a[i] == '.' {
+					if base, ok := ev.mem[a[:i]]; ok && base.k == svSym {
+						return symV(base.s + a[i:]), true
+					}
+				}
 			}
 			return sv{}, false
 		}
